@@ -128,7 +128,8 @@ func runLoad(seed uint64, scale int, out string, _ string) *summary {
 	defer t.close()
 	seen := map[string]bool{}
 	nCases := 120 * scale
-	for cn := 0; cn < nCases; cn++ {
+	stuckCases := 0
+	for cn := 0; cn < nCases && stuckCases < 4; cn++ {
 		withRefresh := r.chance(40)
 		clk := &hookClock{start: time.Now()}
 		counter := stats.NewCounter()
@@ -155,6 +156,7 @@ func runLoad(seed uint64, scale int, out string, _ string) *summary {
 		inflight := map[int]*flight{}   // loader id -> flight
 		registered := map[int]*flight{} // key -> registered flight
 		pendingThreads := map[int]bool{}
+		refreshThreads := map[int]bool{}
 		desc := fmt.Sprintf("case %d refresh=%v keys=%d", cn, withRefresh, nkeys)
 		collect := func(wait time.Duration) []getResult {
 			var rs []getResult
@@ -200,6 +202,9 @@ func runLoad(seed uint64, scale int, out string, _ string) *summary {
 					continue
 				}
 				pendingThreads[th] = true
+				if refresh {
+					refreshThreads[th] = true
+				}
 				viaBulk := !refresh && registered[k] != nil && r.chance(50)
 				if viaBulk {
 					sum.Dist["joiner_via_BulkGet"]++
@@ -425,6 +430,13 @@ func runLoad(seed uint64, scale int, out string, _ string) *summary {
 				}
 				if len(want) != 0 {
 					sum.fail("C08", "stuck-waiter", "a waiter was not released when its load finished", fmt.Sprintf("%s stuck=%v outcome=%s", desc, want, oc.kind))
+					for w := range want {
+						if refreshThreads[w] {
+							sum.fail("C11", "refresh-no-result", "an explicit Refresh returned a channel that delivered no result although the load it was deduplicated onto has finished",
+								fmt.Sprintf("%s thread=%d key=%d outcome=%s", desc, w, fl.g.key, oc.kind))
+						}
+					}
+					stuckCases++
 				}
 				t.line("LF %d %s %d %d%s", id, oc.kind, oc.val, len(rs), sb.String())
 				sum.Dist["load_finished_"+oc.kind]++
